@@ -191,21 +191,74 @@ pub fn reference<const N: usize>(rs: &[R; N], c: u16, allow_log: bool) -> (u16, 
     (status, sid, log, contributes)
 }
 
-fn sym_rule(id: u8, has_status: bool, has_code: bool, has_log: bool) -> R {
+/// FLAGS bits: 1 = reset, 2 = stop.  The flags and the rank ORDER are concrete per harness (they
+/// decide the control flow of the fold; with symbolic flags and ranks the merged heap states did not
+/// finish symbolic execution in 15 min), the data are symbolic: status, listed code, exclude, log.
+/// Model of Action::from_route_rule for rules that carry only a status code, a response-code list,
+/// an exclude flag, a log override and reset/stop (the only rules these harnesses build): the same
+/// (action, reset, stop, unit id) tuple, built from the rule's fields through the constructor hook
+/// without the heavy capture / variable / clone work of the real function.  The real function is
+/// compared with this model on a single rule by `c05_from_route_rule_matches_model`; with it stubbed,
+/// the REAL sort + fold loop (reset replaces, stop returns, merge otherwise) of from_routes_rule is
+/// what these harnesses decide.
+pub fn from_route_rule_model(
+    route: Arc<Route<Rule>>,
+    _request: &redirectionio::http::Request,
+) -> (Option<Action>, bool, bool, Option<String>) {
+    let rule = route.handler();
+    assert!(rule.source.sampling.is_none() && rule.target.is_none());
+    assert!(rule.header_filters.is_none() && rule.body_filters.is_none());
+    let codes = |r: &Rule| -> Vec<u16> {
+        match r.source.response_status_codes.as_ref() {
+            None => Vec::new(),
+            Some(c) => c.clone(),
+        }
+    };
+    let exclude = rule.source.exclude_response_status_codes.is_some();
+    let status = match rule.status_code.unwrap_or(0) {
+        0 => None,
+        sc => Some(redirectionio::action::StatusCodeUpdate {
+            status_code: sc,
+            on_response_status_codes: codes(rule),
+            exclude_response_status_codes: exclude,
+            fallback_status_code: 0,
+            rule_id: Some(rule.id.clone()),
+            fallback_rule_id: None,
+            unit_id: None,
+            target_hash: None,
+        }),
+    };
+    let log = rule.log_override.map(|l| redirectionio::action::VerifLogOverride {
+        log_override: l,
+        rule_id: Some(rule.id.clone()),
+        on_response_status_codes: codes(rule),
+        exclude_response_status_codes: exclude,
+        fallback_log_override: None,
+        fallback_rule_id: None,
+        unit_id: None,
+    });
+    let action = Action::verif_from_parts(status, log, Vec::new(), vec![(rule.id.clone(), codes(rule), exclude)]);
+    let out = (Some(action), rule.reset.unwrap_or(false), rule.stop.unwrap_or(false), None);
+    std::mem::forget(route);
+    out
+}
+
+fn sym_rule(id: u8, rank: u16, shape: u8, flags: u8) -> R {
     let status: u16 = kani::any();
     let code: u16 = kani::any();
     let log: bool = kani::any();
     kani::assume(status >= 300 && status < 310);
     kani::assume(code == 200 || code == 404 || code == 0);
+    let has_code = shape & 2 != 0;
     R {
         id,
-        rank: kani::any(),
-        status: if has_status { Some(status) } else { None },
+        rank,
+        status: if shape & 1 != 0 { Some(status) } else { None },
         code: if has_code { Some(code) } else { None },
         exclude: if has_code { kani::any() } else { false },
-        reset: kani::any(),
-        stop: kani::any(),
-        log: if has_log { Some(log) } else { None },
+        reset: flags & 1 != 0,
+        stop: flags & 2 != 0,
+        log: if shape & 4 != 0 { Some(log) } else { None },
     }
 }
 
@@ -218,18 +271,26 @@ pub fn observe(routes: Vec<Arc<Route<Rule>>>, c: u16, allow_log: bool) -> (u16, 
     (status, log, action)
 }
 
-/// shape bits per rule: 1 = has status, 2 = has response-code list, 4 = has log override
-fn fold2<const S0: u8, const S1: u8>() {
-    let rs = [
-        sym_rule(b'a', S0 & 1 != 0, S0 & 2 != 0, S0 & 4 != 0),
-        sym_rule(b'b', S1 & 1 != 0, S1 & 2 != 0, S1 & 4 != 0),
-    ];
+/// shape bits per rule: 1 = has status, 2 = has response-code list, 4 = has log override.
+/// ORDER: 0 = rank(a) > rank(b), 1 = rank(a) < rank(b), 2 = tie (ids decide).  SWAP: the order in
+/// which the two matched routes are handed over (must not matter: C11).
+fn fold2<const S0: u8, const S1: u8, const F0: u8, const F1: u8, const ORDER: u8, const SWAP: bool>() {
+    // ranks are concrete: a symbolic base made the sort order symbolic for CBMC's simplifier and
+    // every later pointer an if-then-else (10 GB during symbolic execution)
+    let (ra, rb): (u16, u16) = match ORDER {
+        0 => (8, 7),
+        1 => (7, 8),
+        _ => (7, 7),
+    };
+    let rs = [sym_rule(b'a', ra, S0, F0), sym_rule(b'b', rb, S1, F1)];
     let c: u16 = kani::any();
     kani::assume(c == 0 || c == 200 || c == 404 || c == 500);
     let allow_log: bool = kani::any();
-    // the order in which matched rules are handed over must not matter (C11)
-    let swap: bool = kani::any();
-    let routes = if swap { vec![route(&rs[1]), route(&rs[0])] } else { vec![route(&rs[0]), route(&rs[1])] };
+    let (r0, r1) = (route(&rs[0]), route(&rs[1]));
+    // the router keeps its own references to the matched routes
+    std::mem::forget(r0.clone());
+    std::mem::forget(r1.clone());
+    let routes = if SWAP { vec![r1, r0] } else { vec![r0, r1] };
     let (status, log, action) = observe(routes, c, allow_log);
     let (want_status, want_id, want_log, _contrib) = reference(&rs, c, allow_log);
     assert!(status == want_status);
@@ -245,26 +306,73 @@ fn fold2<const S0: u8, const S1: u8>() {
         }
         assert!(found);
     }
-    kani::cover!(status != 0 && rs[0].rank == rs[1].rank);
-    kani::cover!(rs[0].reset && rs[0].stop);
-    kani::cover!(swap && status != 0);
+    kani::cover!(status != 0);
+    kani::cover!(status == 0);
     std::mem::forget(action);
 }
 
 macro_rules! fold2_harness {
-    ($name:ident, $s0:expr, $s1:expr) => {
+    ($name:ident, $s0:expr, $s1:expr, $f0:expr, $f1:expr, $order:expr, $swap:expr) => {
         #[kani::proof]
         #[kani::unwind(6)]
         #[kani::stub(std::mem::swap, typed_swap)]
+        #[kani::stub(std::sync::Arc::drop_slow, arc_drop_slow_unreachable)]
+        #[kani::stub(redirectionio::action::Action::from_route_rule, from_route_rule_model)]
         fn $name() {
-            fold2::<$s0, $s1>();
+            fold2::<$s0, $s1, $f0, $f1, $order, $swap>();
         }
     };
 }
 
-// unconditional status + conditional status (the fallback merge), with log overrides
-fold2_harness!(c05_fold2_uncond_cond, 1, 3);
-fold2_harness!(c05_fold2_cond_cond, 3, 3);
-fold2_harness!(c05_fold2_uncond_uncond, 1, 1);
-fold2_harness!(c05_fold2_log_uncond_cond, 4, 6);
-fold2_harness!(c05_fold2_status_log_mixed, 5, 7);
+// a: unconditional status, b: conditional status.  b applied last (rank a > rank b): fallback merge
+fold2_harness!(c05_fold2_fallback_merge, 1, 3, 0, 0, 0, false);
+// same rules handed over in the other order (C11) and applied in the other rank order
+fold2_harness!(c05_fold2_fallback_merge_swapped, 1, 3, 0, 0, 0, true);
+fold2_harness!(c05_fold2_cond_then_uncond, 1, 3, 0, 0, 1, false);
+// rank tie: ids decide (b before a)
+fold2_harness!(c05_fold2_tie_by_id, 1, 3, 0, 0, 2, true);
+// reset / stop
+fold2_harness!(c05_fold2_reset_on_last, 1, 3, 0, 1, 0, false);
+fold2_harness!(c05_fold2_stop_on_first, 1, 3, 2, 0, 0, false);
+fold2_harness!(c05_fold2_reset_and_stop_on_first, 3, 1, 3, 0, 0, false);
+// log overrides, conditional over unconditional
+fold2_harness!(c05_fold2_log_fallback, 4, 6, 0, 0, 0, false);
+fold2_harness!(c05_fold2_status_and_log, 5, 7, 0, 0, 0, true);
+fold2_harness!(c05_fold2_cond_cond, 3, 3, 0, 0, 0, false);
+
+/// The model used above equals the real Action::from_route_rule on a single rule, observed through
+/// the use-time API (status code, log decision, applied rule ids) and the reset/stop flags.
+#[kani::proof]
+#[kani::unwind(6)]
+#[kani::stub(std::mem::swap, typed_swap)]
+#[kani::stub(std::sync::Arc::drop_slow, arc_drop_slow_unreachable)]
+#[kani::stub(redirectionio::router::Route::capture, capture_nothing)]
+#[kani::stub(redirectionio::api::Rule::variables, variables_nothing)]
+fn c05_from_route_rule_matches_model() {
+    let flags: u8 = kani::any();
+    kani::assume(flags < 4);
+    let r = sym_rule(b'a', 7, 7, 0);
+    let r = R { reset: flags & 1 != 0, stop: flags & 2 != 0, ..r };
+    let rt = route(&r);
+    std::mem::forget(rt.clone());
+    std::mem::forget(rt.clone());
+    let req = request_with(Vec::new());
+    let (real, reset, stop, unit) = Action::from_route_rule(rt.clone(), &req);
+    let (model, mreset, mstop, munit) = from_route_rule_model(rt, &req);
+    assert!(reset == mreset && stop == mstop && unit.is_none() && munit.is_none());
+    let c: u16 = kani::any();
+    kani::assume(c == 0 || c == 200 || c == 404 || c == 500);
+    let allow: bool = kani::any();
+    match (real, model) {
+        (Some(mut a), Some(mut m)) => {
+            assert!(a.get_status_code(c, None) == m.get_status_code(c, None));
+            assert!(a.should_log_request(allow, c, None) == m.should_log_request(allow, c, None));
+            assert!(a.get_applied_rule_ids().len() == m.get_applied_rule_ids().len());
+            std::mem::forget(a);
+            std::mem::forget(m);
+        }
+        _ => assert!(false),
+    }
+    kani::cover!(reset && stop);
+    std::mem::forget(req);
+}
